@@ -128,7 +128,8 @@ def nnames (items : List DItem) : List Cps :=
     | .prop pr => if names.contains pr.name then names else names ++ [pr.name]
     | _ => names) []).reverse
 
-/-- `getProperty(name)` (`cssstyledeclaration.py:432-455`) as an index into `seq`; the state of the reversed scan is
+/-- `__effective(nname)` (`cssstyledeclaration.py:225-241`; the names come from `__nnames` and are compared with
+`val.name` only) as an index into `seq`; the state of the reversed scan is
 `(returned, found)` -/
 def getPropertyIdx (items : List DItem) (name : Cps) : Option Nat :=
   let r := (items.zipIdx.reverse).foldl (fun (st : Option Nat × Option Nat) it =>
@@ -136,7 +137,7 @@ def getPropertyIdx (items : List DItem) (name : Cps) : Option Nat :=
     | some _ => st
     | none => match it.1 with
       | .prop pr =>
-        if name == pr.name || name == pr.literalname then
+        if name == pr.name then
           if !pr.priority.isEmpty then (some it.2, st.2)
           else if st.2.isNone then (none, some it.2) else st
         else st
